@@ -1360,6 +1360,12 @@ int run_families(const FamilyCtx& ctx, vu::Result& res) {
         run_c10(j, T ? 30000 : 1200);
         run_c15(j, T ? 2000 : 100);      // DISCONNECTs with every property shape under small Maximum Packet Size limits
         run_idle_sweep(j, T ? 10 : 2, T ? 100 : 40, {1, 5});   // DISCONNECT with reason code and Reason String in many client states
+    } else if (P == "C18") {
+        // well-formed broker packets in situ: conformant broker with every acknowledgement shape and rich inbound PUBLISH properties
+        run_mix(j, knobs_for("c01-mix"), "c01-mix", T ? 30000 : 800);
+        run_mix(j, knobs_for("c04-mix"), "c04-mix", T ? 30000 : 800);
+        run_mix(j, knobs_for("c14-mix"), "c14-mix", T ? 30000 : 800);
+        run_c10(j, T ? 10000 : 400);
     } else if (P == "C20") {
         run_c20_insitu(j);
     } else if (P == "C19") {
